@@ -5,7 +5,7 @@ from .. import bits as B_
 from ..astutil import aug_form, dotted, effective, method_call
 from ..cfg import cfg_of, fact_key, norm, walk_own
 from ..consteval import Scope, fold_in
-from ..flow import logging_purity_rules
+from ..flow import straightline_paths, logging_purity_rules
 from ..mutate import B, M
 
 PROP = 'C18'
@@ -39,16 +39,37 @@ def check(ctx):
     ctx.need('targetsAndFlags' in wst and 'functionAndVersion' in wst, '_get_wire_data: header bytes not found')
     inp = {'self.source.value': 'src', 'self.destination.value': 'dst', 'self.function.value': 'fn', 'self.version': 'ver'}
     wd = {'src': 8, 'dst': 8, 'fn': 8, 'ver': 8}
+    # byte 0 as it stands when the header is packed, per value of lastPacket (however many locals carry the pieces)
+    sp_ = straightline_paths(gw, with_env=True, skip_calls=True)
+    per_flag = {}
+    if sp_ is not None:
+        for conds_, _r, env_ in sp_:
+            cd = dict(conds_)
+            if 'targetsAndFlags' in env_ and set(cd) <= {'self.lastPacket'}:
+                per_flag.setdefault(cd.get('self.lastPacket'), []).append(B_.evaluate(env_['targetsAndFlags'], sc, inp, wd))
+    if set(per_flag) == {True, False} and all(len(v_) == 1 for v_ in per_flag.values()):
+        bt, bf = per_flag[True][0], per_flag[False][0]
+        for lbl, b_ in (('', bf), ('[last]', bt)):
+            ctx.inst('R1', gw, 'w:source-bits-5..3' + lbl, B_.is_input_field(b_, 3, 3, 'src'), 'byte 0 %s' % B_.describe(b_, 8))
+            ctx.inst('R1', gw, 'w:destination-bits-2..0' + lbl, B_.is_input_field(b_, 0, 3, 'dst') and all(x == 0 for x in b_[7:]), 'byte 0 %s' % B_.describe(b_, 8))
+        ctx.inst('R1', gw, 'w:last-packet-bit-6', bt[6] == 1 and bf[6] == 0, 'last-packet flag is bit 6 of byte 0, set iff lastPacket; bit 6 = %s / %s' % (bt[6], bf[6]))
+        b1 = B_.evaluate(wst['functionAndVersion'][0].value, sc, inp, wd)
+        ctx.inst('R1', gw, 'w:function-bits-5..0', B_.is_input_field(b1, 0, 6, 'fn'), 'byte 1 %s' % B_.describe(b1, 8))
+        ctx.inst('R1', gw, 'w:version-bits-7..6', B_.is_input_field(b1, 6, 2, 'ver') and all(b == 0 for b in b1[8:]), 'byte 1 %s' % B_.describe(b1, 8))
+        wire_by_paths = True
+    else:
+        wire_by_paths = False
     b0 = B_.evaluate(wst['targetsAndFlags'][0].value, sc, inp, wd)
     b1 = B_.evaluate(wst['functionAndVersion'][0].value, sc, inp, wd)
-    ctx.inst('R1', gw, 'w:source-bits-5..3', B_.is_input_field(b0, 3, 3, 'src'), 'byte 0 %s' % B_.describe(b0, 8))
-    ctx.inst('R1', gw, 'w:destination-bits-2..0', B_.is_input_field(b0, 0, 3, 'dst') and all(b == 0 for b in b0[6:]), 'byte 0 %s' % B_.describe(b0, 8))
-    ctx.inst('R1', gw, 'w:function-bits-5..0', B_.is_input_field(b1, 0, 6, 'fn'), 'byte 1 %s' % B_.describe(b1, 8))
-    ctx.inst('R1', gw, 'w:version-bits-7..6', B_.is_input_field(b1, 6, 2, 'ver') and all(b == 0 for b in b1[8:]), 'byte 1 %s' % B_.describe(b1, 8))
     g = cfg_of(gw)
-    lp = [n for n in g.nodes if n.kind == 'stmt' and aug_form(n.ast) and aug_form(n.ast)[0] == 'targetsAndFlags']
-    ok = len(lp) == 1 and aug_form(lp[0].ast)[1] is ast.BitOr and fold_in(gw, aug_form(lp[0].ast)[2]) == 0x40 and fact_key('self.lastPacket', True) in g.fact_keys_at(lp[0])
-    ctx.inst('R1', gw, 'w:last-packet-bit-6', ok, 'last-packet flag is bit 6 of byte 0, set iff lastPacket')
+    if not wire_by_paths:
+        ctx.inst('R1', gw, 'w:source-bits-5..3', B_.is_input_field(b0, 3, 3, 'src'), 'byte 0 %s' % B_.describe(b0, 8))
+        ctx.inst('R1', gw, 'w:destination-bits-2..0', B_.is_input_field(b0, 0, 3, 'dst') and all(b == 0 for b in b0[6:]), 'byte 0 %s' % B_.describe(b0, 8))
+        ctx.inst('R1', gw, 'w:function-bits-5..0', B_.is_input_field(b1, 0, 6, 'fn'), 'byte 1 %s' % B_.describe(b1, 8))
+        ctx.inst('R1', gw, 'w:version-bits-7..6', B_.is_input_field(b1, 6, 2, 'ver') and all(b == 0 for b in b1[8:]), 'byte 1 %s' % B_.describe(b1, 8))
+        lp = [n for n in g.nodes if n.kind == 'stmt' and aug_form(n.ast) and aug_form(n.ast)[0] == 'targetsAndFlags']
+        ok = len(lp) == 1 and aug_form(lp[0].ast)[1] is ast.BitOr and fold_in(gw, aug_form(lp[0].ast)[2]) == 0x40 and fact_key('self.lastPacket', True) in g.fact_keys_at(lp[0])
+        ctx.inst('R1', gw, 'w:last-packet-bit-6', ok, 'last-packet flag is bit 6 of byte 0, set iff lastPacket')
     ext = [c for c in walk_own(gw.node) if method_call(c, 'extend')]
     ok = len(ext) == 2 and norm(ext[0].args[0]) == "struct.pack('<BB', targetsAndFlags, functionAndVersion)" and norm(ext[1].args[0]) == 'self.data'
     ctx.inst('R1', gw, 'w:layout', ok, 'wire data = <BB(byte0, byte1) then the payload; found %s' % [norm(c) for c in ext])
